@@ -49,10 +49,22 @@ def sweep(s, ro, state_xml, ctx=None, after=None):
     except ET.ParseError:
         pass
 
+    # every third state is swept with the library's own warnings turned into errors (the caller's choice of
+    # filter is not a licence for a read accessor to raise: the unchanged accessors never warn)
+    import warnings as W_
+    strict_filter = (s.evaluations % 3 == 1)
+    lib_warning = getattr(s.exc, 'MosRoMgrWarning', Warning)
+    if strict_filter:
+        s.hist['states_swept_with_library_warnings_as_errors'] += 1
+
     def call(obj, name, cls):
         nonlocal calls
         calls += 1
         try:
+            if strict_filter:
+                with W_.catch_warnings():
+                    W_.simplefilter('error', lib_warning)
+                    return True, getattr(obj, name)
             return True, getattr(obj, name)
         except Exception as e:
             s.hist['accessor_raised:%s.%s' % (cls, name)] += 1
